@@ -191,3 +191,9 @@ def run(ctx):
     ctx.run_clause("C08.b", c08b)
     ctx.run_clause("C08.c", c08c)
     ctx.run_clause("C08.d", c08d)
+    # every crash image is a *prefix* of the committed batches only if the committer applies batches strictly in epoch
+    # order: C10.a's rules, evaluated here as C08.f
+    from . import C10
+    ctx.alias = {"C10.a": "C08.f"}
+    ctx.run_clause("C08.f", C10.c10a)
+    ctx.alias = {}
